@@ -111,6 +111,31 @@ Proof. exact ex2_never_deadlocks. Qed.
 Example C08_client_example : forall norm maxc,
   fst (run_loop norm maxc (nb (ex3_w 1) + 4) (new_parser 64) ex3_scripts 0 (ex3_w 1)) = ORet.
 Proof. exact ex3_never_deadlocks. Qed.
+
+(* the hypothesis no_abandoned_read of C08_only_waits_for_client and of the two MAIN theorems cannot be dropped (known finding
+   F6): a well-formed script with op 11 (a read polled once and dropped while Request::poll_output has written only part of a
+   management reply and holds Request.lock) followed by a StreamWriter write, every other hypothesis satisfied: the writer
+   waits for the lock, the client for the rest of the reply — the run ends in the wait-for cycle; with the read awaited it
+   returns.  Instances: Async/PeerProofs2.v (ex2p_hyps ...), Async/PeerProofs3.v (ex3p_hyps ...) *)
+Example C08_abandoned_read_counterexample :
+  (scripts_ok true (ex2p_scripts 11) /\ ~ Forall no_abandoned_read (ex2p_scripts 11) /\\
+   segs ex2p_w = enc_segs ex2p_sg /\ peer_segs 0 ex2p_sg /\ wlog ex2p_w = [] /\ no_fault (wscript ex2p_w) /\\
+   no_read_fault (rscript ex2p_w) /\ stop_at ex2p_w = 0 /\ stopped ex2p_w = false) /\\
+  fst (run_loop (fun b => b) 10 (nb ex2p_w + 4) (new_parser 64) (ex2p_scripts 11) 0 ex2p_w) = ODeadlock /\\
+  fst (run_loop (fun b => b) 10 (nb ex2p_w + 4) (new_parser 64) (ex2p_scripts 1) 0 ex2p_w) = ORet.
+Proof.
+  destruct ex2p_hyps as (_ & H2 & H3 & _ & H5 & H6 & H7 & H8 & H9 & H10 & H11 & _).
+  split; [exact (conj H2 (conj H3 (conj H5 (conj H6 (conj H7 (conj H8 (conj H9 (conj H10 H11))))))))|]. split; [exact (proj1 ex2p_abandoned_read_deadlocks)|exact (proj1 ex2p_awaited_read_returns)].
+Qed.
+Example C08_abandoned_read_counterexample_client :
+  (scripts_ok true (ex3p_scripts 11) /\ ~ Forall no_abandoned_read (ex3p_scripts 11) /\\
+   segs ex3p_w = enc_client ex3p_cs /\ client_segs 0 0 ex3p_cs /\ wlog ex3p_w = [] /\ no_fault (wscript ex3p_w)) /\\
+  fst (run_loop (fun b => b) 10 (nb ex3p_w + 4) (new_parser 64) (ex3p_scripts 11) 0 ex3p_w) = ODeadlock /\\
+  fst (run_loop (fun b => b) 10 (nb ex3p_w + 4) (new_parser 64) (ex3p_scripts 1) 0 ex3p_w) = ORet.
+Proof.
+  destruct ex3p_hyps as (_ & H2 & H3 & _ & H5 & H6 & H7 & H8).
+  split; [exact (conj H2 (conj H3 (conj H5 (conj H6 (conj H7 H8)))))|]. split; [exact (proj1 ex3p_abandoned_read_deadlocks)|exact (proj1 ex3p_awaited_read_returns)].
+Qed.
 '''
 
 if "C08" in which:
@@ -122,8 +147,14 @@ if "C08" in which:
 From FV Require Import %s%s Async.PeerTargets Async.PeerProofs Async.PeerTargets2 Async.PeerProofs2 Async.PeerTargets3 Async.PeerProofs3.
 ''' % (PRE, CR)
     put("C08", "", [
-        ("the only way the task can be suspended without a pending wake-up is a transport read that a GATED client does not "
-         "satisfy: never a panic, a spin, or a wait on anything else", "run_loop_total", "C08_only_waits_for_client"),
+        ("layer (i), every transport (write faults included) and every well-formed handler: the task ends by returning or suspended "
+         "without a pending wake-up — never a panic, never a spin.  What it is suspended on is a transport read that a gated client "
+         "does not satisfy or (known findings F5/F6, refuted form: C12_terminates_unrestricted_refuted) a StreamWriter op waiting "
+         "for the request's own output lock", "run_loop_total", "C08_never_panics_or_spins"),
+        ("layer (ii-a): on a transport without write faults, with handlers that await the reads they start (no abandoned poll, "
+         "op 11), Request.lock is free between handler ops, and the only way the task can be suspended without a pending wake-up "
+         "is a transport read that a GATED client does not satisfy: never a panic, a spin, or a wait on anything else",
+         "run_loop_waits_fault_free", "C08_only_waits_for_client"),
         ("inside a handler's read (poll_input): a suspension without wake-up happens only with NOTHING OWED: the parser's output "
          "buffer is empty, everything it produced is in the transport's log (wlog w' = wlog w ++ flushed, and flushed ++ what is "
          "still owed for the undelivered bytes = what was owed before), nothing is owed for the bytes already received "
@@ -152,8 +183,9 @@ From FV Require Import %s%s Async.PeerTargets Async.PeerProofs Async.PeerTargets
          ["peer_read_no_deadlock_stmt", "gates_owed_only"]),
         ("between requests: the log has grown by exactly the (complete-record) outputs of the parse calls made, counted additively, when "
          "parse_request waits for the client", "parse_request_block_counts", "C08_parse_request_block_counts", ["parse_request_block_counts_stmt"]),
-        ("MAIN, whole connection: on a fault-free transport, for EVERY buffer size, every list of well-formed handler scripts (reading, "
-         "buffered reading, stream switching, writing, early return, own status, failing), every read/write readiness pattern and every "
+        ("MAIN, whole connection: on a fault-free transport, for EVERY buffer size, every list of well-formed handler scripts that await "
+         "the reads they start (reading, buffered reading, stream switching, writing, early return, own status, failing; NOT the read "
+         "polled once and dropped of op 11: see C08_abandoned_read_counterexample), every read/write readiness pattern and every "
          "client whose segments are whole records and whose gates ask only for management replies owed for records of EARLIER segments "
          "(pipelining allowed), the connection task RETURNS: server and peer never wait for each other", "peer_never_deadlocks",
          "C08_peer_never_deadlocks", ["peer_never_deadlocks_stmt"]),
@@ -230,7 +262,7 @@ if "C10" in which:
     ])
 
 if "C07" in which:
-    put("C07", "Codec.Varint Codec.NV Codec.Vars Parser.ReqWire Parser.ReqTargets Async.ConnTotal Async.ConnReads Async.LoopTargets Async.LoopProofs", [
+    put("C07", "Codec.Varint Codec.NV Codec.Vars Parser.ReqWire Parser.ReqTargets Async.ConnTotal Async.ConnReads Async.LoopTargets Async.LoopProofs Async.PeerTargets4 Async.PeerProofs4", [
         ("'exactly that request': Token::parse_request IS a read schedule of the request parser whose chunks are the transport reads — "
          "whatever the transport does (any read sizes, Pending, any write pattern)", "parse_request_sched", "C07_parse_request_is_a_schedule", ["parse_request_sched_stmt"]),
         ("a reused connection's parser (leftover L of the previous request in its buffer) behaves exactly like a fresh parser fed L first", "leftover_as_fed", "C07_leftover_as_fed", ["leftover_as_fed_stmt"]),
@@ -242,6 +274,13 @@ if "C07" in which:
         ("'exactly one handler invocation': one iteration of Token::run — while no shutdown was requested it parses ONE request, runs the "
          "handler ONCE on it, closes it ONCE when the handler returned a status (a handler Err ends the connection without close unless "
          "it is the client's abort), and continues only with the parser a successful close handed back", "run_loop_iteration", "C07_one_handler_call_per_request"),
+        ("the trace of Token::run: `run_loop_tr` is run_loop with a ghost trace of the requests handed to the handler; erasing the "
+         "trace gives run_loop, same outcome, same world", "run_loop_tr_erase", "C07_trace_is_ghost", ["run_loop_tr_erase_stmt"]),
+        ("MAIN, whole connection: for the one-outstanding client whose requests respect the buffer bound, the requests handed to the "
+         "handler are exactly the requests sent, in order, each once (the trace of Token::run with a ghost trace, `run_loop_tr`, which "
+         "erases to run_loop: C07_trace_is_ghost; a prefix of the sent requests if the connection ends early) — on a fault-free "
+         "transport, for every handler script (abandoned reads included), readiness pattern and buffer size",
+         "requests_in_order", "C07_requests_in_order", ["requests_in_order_stmt"]),
     ], tail='''(* non-vacuity of C07_handler_sees_exactly_the_request: a concrete connection (B = 160, a GetValues junk record inside
    the preamble, leftover = 5 bytes, two client segments, Pending reads and writes) satisfies every hypothesis *)
 Example C07_handler_sees_example : forall s0 w', lp_run = Ok (inl s0) w' ->
